@@ -58,10 +58,11 @@ class Fold:
     Defining equations are instantiated by the executor at every loop split (loops.py) and, for
     small prefixes, here (so that fixed-length tuples need no induction)."""
 
-    def __init__(self, I, name, pred):
+    def __init__(self, I, name, pred, indexed=False):
         self.I = I
         self.name = name
         self.pred = pred
+        self.indexed = indexed      # pred(x, i): the predicate may mention the position
         self.tfn = z3.Function(name, V, z3.IntSort(), z3.BoolSort())
         self.sfn = z3.Function(name + "_seq", vm.SeqV, z3.BoolSort())
         I.U.axioms.append(self.sfn(z3.Empty(vm.SeqV)))
@@ -77,17 +78,17 @@ class Fold:
             for k in range(unfold):
                 it = vm.titem(v, k)
                 self.I.U.well_typed(it)
-                ax.append(self.tfn(v, k + 1) == z3.And(self.tfn(v, k), self.pred(it)))
+                ax.append(self.tfn(v, k + 1) == z3.And(self.tfn(v, k), self.pred(it, z3.IntVal(k)) if self.indexed else self.pred(it)))
         return self.tfn(v, vm.tlen(v))
 
     def of_seq(self, seq):
         return self.sfn(seq)
 
 
-def fold(I, name, pred):
+def fold(I, name, pred, indexed=False):
     folds = I.U.__dict__.setdefault("folds", {})
     if name not in folds:
-        folds[name] = Fold(I, name, pred)
+        folds[name] = Fold(I, name, pred, indexed)
     return folds[name]
 
 
